@@ -346,6 +346,26 @@ impl From<&edwards::EdwardsPoint> for NafLookupTable8<CachedPoint> {
     }
 }
 
+// Verification hooks (cfg curve25519_dalek_verif only): raw access to the wrapped vectors.
+#[cfg(curve25519_dalek_verif)]
+impl ExtendedPoint {
+    pub(crate) fn verif_from_raw(x: FieldElement2625x4) -> ExtendedPoint {
+        ExtendedPoint(x)
+    }
+    pub(crate) fn verif_raw(&self) -> FieldElement2625x4 {
+        self.0
+    }
+}
+#[cfg(curve25519_dalek_verif)]
+impl CachedPoint {
+    pub(crate) fn verif_from_raw(x: FieldElement2625x4) -> CachedPoint {
+        CachedPoint(x)
+    }
+    pub(crate) fn verif_raw(&self) -> FieldElement2625x4 {
+        self.0
+    }
+}
+
 #[cfg(target_feature = "avx2")]
 #[cfg(test)]
 mod test {
